@@ -188,6 +188,55 @@ Section FlowThm.
   Theorem flow_zero_iterations v ts stop_eps step :
     mean_curvature_flow Rops solve v ts 0 stop_eps step = Ok (normalize Rops v ts, ts).
   Proof. reflexivity. Qed.
+
+  (* lengths are kept along the loop, so the normalisation theorem applies to the result *)
+  Lemma normalize_length (x : list V3) ts : length (normalize Rops x ts) = length x.
+  Proof. unfold normalize. destruct (centroid Rops x ts). apply map_length. Qed.
+  Lemma flow_step_lengths step A0 ts v X v' d : flow_step Rops solve step A0 ts v = Ok (X, v', d) ->
+    length X = length v /\ length v' = length v.
+  Proof.
+    unfold flow_step. set (M := fem_tria_mass Rops true v ts). set (S := flow_matrix Rops step A0 M).
+    destruct (solve (length v) S (flow_rhs Rops M v 0)) as [xs|e] eqn:E0; [|discriminate].
+    destruct (solve (length v) S (flow_rhs Rops M v 1)) as [ys|e] eqn:E1; [|discriminate].
+    destruct (solve (length v) S (flow_rhs Rops M v 2)) as [zs|e] eqn:E2; [|discriminate].
+    intros H. injection H as EX Ev Ed. subst X v'.
+    destruct (HC _ _ _ _ E0) as [L0 _]. destruct (HC _ _ _ _ E1) as [L1 _]. destruct (HC _ _ _ _ E2) as [L2 _].
+    assert (L : length (v_of_cols [xs; ys; zs]) = length v) by (unfold v_of_cols; rewrite map_length, !combine_length; lia).
+    split; [exact L|]. rewrite normalize_length. exact L.
+  Qed.
+  Lemma flow_loop_shape_len iters stop_eps step A0 ts : forall v w, flow_loop Rops solve iters stop_eps step A0 ts v = Ok w ->
+    w = v \/ exists X, w = normalize Rops X ts /\ length X = length v.
+  Proof.
+    induction iters as [|m IH]; intros v w H; cbn [flow_loop] in H.
+    - inversion H. left; reflexivity.
+    - destruct (flow_step Rops solve step A0 ts v) as [[[X v'] d]|e] eqn:E; [|discriminate].
+      pose proof (flow_step_lengths _ _ _ _ _ _ _ E) as [LX Lv'].
+      apply flow_step_equation in E. destruct E as [-> _].
+      destruct (ltb Rops d stop_eps).
+      + inversion H. right. exists X. split; [reflexivity|exact LX].
+      + apply IH in H. destruct H as [->|(X' & -> & LX')]; [right; exists X; split; [reflexivity|exact LX]|].
+        right. exists X'. split; [reflexivity|]. rewrite LX', Lv'. reflexivity.
+  Qed.
+
+  (* the returned mesh has unit area and its centroid at the origin, as soon as the last solver answer has positive area *)
+  Theorem flow_result_unit_area v ts max_iter stop_eps step w ts' : tris_in_range (length v) ts ->
+    mean_curvature_flow Rops solve v ts max_iter stop_eps step = Ok (w, ts') ->
+    exists X, w = normalize Rops X ts /\ length X = length v /\
+      (0 < total_area X ts -> area Rops w ts = 1 /\ centroid Rops w ts = ((0, 0, 0), 1)).
+  Proof.
+    intros Hr. unfold mean_curvature_flow. destruct (flow_loop _ _ _ _ _ _ _ _) as [w'|e] eqn:E; [|discriminate].
+    intros H. inversion H; subst w' ts'. clear H.
+    apply flow_loop_shape_len in E. rewrite normalize_length in E.
+    assert (G : forall X, length X = length v -> w = normalize Rops X ts ->
+              0 < total_area X ts -> area Rops w ts = 1 /\ centroid Rops w ts = ((0, 0, 0), 1)).
+    { intros X LX -> HA. assert (Hr' : tris_in_range (length X) ts) by (rewrite LX; exact Hr).
+      split; [apply normalize_area_one; assumption|].
+      destruct (normalize_unit_area_zero_centroid X ts Hr' HA) as [H1 H2].
+      destruct (centroid Rops (normalize Rops X ts) ts) as [c a]. cbn [fst snd] in *. subst. reflexivity. }
+    destruct E as [->|(X & -> & LX)].
+    - exists v. split; [reflexivity|]. split; [reflexivity|]. apply G; reflexivity.
+    - exists X. split; [reflexivity|]. split; [exact LX|]. apply G; [exact LX|reflexivity].
+  Qed.
 End FlowThm.
 
 (* ------------------------------------------------------------------ projection to radius 100 and the gates *)
@@ -218,4 +267,125 @@ Proof.
   split; [reflexivity|]. split; [reflexivity|]. split; [lra|]. split; [lra|]. split; [lra|].
   intros Hp. apply Forall_forall. intros q Hq. unfold project100 in Hq.
   apply in_map_iff in Hq. destruct Hq as (p & <- & Hin). cbn [ofZ Rops]. apply project100_norm. apply Hp. exact Hin.
+Qed.
+(* ---- spectral embedding: coordinates in [-1, 1] *)
+Lemma maxl1_ge (l : list R) x : In x l -> x <= maxl1 Rops l.
+Proof.
+  destruct l as [|a l]; [intros []|]. unfold maxl1.
+  assert (G : forall l m x, (x <= m \/ In x l) -> x <= fold_left (fun m y => if ltb Rops m y then y else m) l m).
+  { clear. induction l as [|b l IH]; intros m x H; cbn [fold_left].
+    - destruct H as [H|[]]; exact H.
+    - apply IH. cbn [ltb Rops]. destruct (Rltb m b) eqn:E.
+      + apply Rltb_true in E. destruct H as [H|[H|H]]; [left; lra|left; lra|right; exact H].
+      + apply Rltb_false in E. destruct H as [H|[H|H]]; [left; lra|left; lra|right; exact H]. }
+  intros [H|H]; apply G; [left; lra|right; exact H].
+Qed.
+Lemma minl1_le (l : list R) x : In x l -> minl1 Rops l <= x.
+Proof.
+  destruct l as [|a l]; [intros []|]. unfold minl1.
+  assert (G : forall l m x, (m <= x \/ In x l) -> fold_left (fun m y => if ltb Rops y m then y else m) l m <= x).
+  { clear. induction l as [|b l IH]; intros m x H; cbn [fold_left].
+    - destruct H as [H|[]]; exact H.
+    - apply IH. cbn [ltb Rops]. destruct (Rltb b m) eqn:E.
+      + apply Rltb_true in E. destruct H as [H|[H|H]]; [left; lra|left; lra|right; exact H].
+      + apply Rltb_false in E. destruct H as [H|[H|H]]; [left; lra|left; lra|right; exact H]. }
+  intros [H|H]; apply G; [left; lra|right; exact H].
+Qed.
+
+Theorem rescale_in_unit_interval (ev : list R) y : In y (rescale_pm1 Rops ev) -> -1 <= y <= 1.
+Proof.
+  unfold rescale_pm1. intros H. apply in_map_iff in H. destruct H as (x & <- & Hx).
+  pose proof (maxl1_ge ev x Hx) as Hmax. pose proof (minl1_le ev x Hx) as Hmin.
+  set (mn := minl1 Rops ev) in *. set (mx := maxl1 Rops ev) in *.
+  cbn [ltb zero opp div Rops].
+  destruct (Rltb x 0) eqn:E1.
+  - apply Rltb_true in E1. assert (Hm : mn < 0) by lra.
+    assert (B : -1 <= x / - mn < 0).
+    { split.
+      - apply (Rmult_le_reg_r (- mn)); [lra|]. unfold Rdiv. rewrite Rmult_assoc, Rinv_l by lra. lra.
+      - assert (0 < / - mn) by (apply Rinv_0_lt_compat; lra). unfold Rdiv. nra. }
+    destruct (Rltb 0 (x / - mn)) eqn:E2; [apply Rltb_true in E2; lra|]. lra.
+  - apply Rltb_false in E1. destruct (Rltb 0 x) eqn:E2.
+    + apply Rltb_true in E2. assert (Hm : 0 < mx) by lra. split.
+      * apply Rle_trans with 0; [lra|]. apply Rlt_le, Rdiv_lt_0_compat; lra.
+      * apply (Rmult_le_reg_r mx); [lra|]. unfold Rdiv. rewrite Rmult_assoc, Rinv_l by lra. lra.
+    + apply Rltb_false in E2. lra.
+Qed.
+
+Theorem embedding_in_cube v ev1 ev2 ev3 e : spectral_embedding Rops v ev1 ev2 ev3 = Ok e ->
+  Forall (fun p => -1 <= vx p <= 1 /\ -1 <= vy p <= 1 /\ -1 <= vz p <= 1) (em_vn e).
+Proof.
+  unfold spectral_embedding.
+  destruct (ltb Rops _ _ || ltb Rops _ _); [discriminate|].
+  match goal with |- context [if ?b then (ev3, ev2) else _] => destruct b end;
+  intros H; inversion H; subst; cbn [em_vn]; clear H;
+  apply Forall_forall; intros p Hp; apply in_map_iff in Hp; destruct Hp as ([x [y z]] & <- & Hin);
+  apply in_combine_l in Hin as Hx; apply in_combine_r in Hin; apply in_combine_l in Hin as Hy; apply in_combine_r in Hin;
+  unfold vx, vy, vz; cbn [fst snd];
+  (split; [|split]); eapply rescale_in_unit_interval; eassumption.
+Qed.
+
+(* ---- axis alignment: after the sign choices, the region where an eigenfunction is large lies, on average, further along its
+        axis (y for the first, z for the second, x for the third) than the region where it is small *)
+Lemma Rltb_neg a b : Rltb (- a) (- b) = Rltb b a.
+Proof.
+  destruct (Rltb b a) eqn:E.
+  - apply Rltb_true in E. apply Rltb_true. lra.
+  - apply Rltb_false in E. apply Rltb_false. lra.
+Qed.
+Lemma negl_is_opp l : negl Rops l = map Ropp l.
+Proof. unfold negl. apply map_ext. intros x. cbn [opp one mul Rops]. ring. Qed.
+Lemma fold_max_neg : forall l m, fold_left (fun m y => if ltb Rops m y then y else m) (map Ropp l) (- m)
+                                 = - fold_left (fun m y => if ltb Rops y m then y else m) l m.
+Proof.
+  induction l as [|y l IH]; intros m; [reflexivity|]. cbn [map fold_left]. cbn [ltb Rops]. rewrite Rltb_neg.
+  destruct (Rltb y m); apply IH.
+Qed.
+Lemma fold_min_neg : forall l m, fold_left (fun m y => if ltb Rops y m then y else m) (map Ropp l) (- m)
+                                 = - fold_left (fun m y => if ltb Rops m y then y else m) l m.
+Proof.
+  induction l as [|y l IH]; intros m; [reflexivity|]. cbn [map fold_left]. cbn [ltb Rops]. rewrite Rltb_neg.
+  destruct (Rltb m y); apply IH.
+Qed.
+Lemma maxl1_negl l : l <> [] -> maxl1 Rops (negl Rops l) = - minl1 Rops l.
+Proof. rewrite negl_is_opp. destruct l as [|a l]; [contradiction|]. intros _. cbn [map maxl1 minl1]. apply fold_max_neg. Qed.
+Lemma minl1_negl l : l <> [] -> minl1 Rops (negl Rops l) = - maxl1 Rops l.
+Proof. rewrite negl_is_opp. destruct l as [|a l]; [contradiction|]. intros _. cbn [map maxl1 minl1]. apply fold_min_neg. Qed.
+
+Lemma combine_map_snd {A B C} (g : B -> C) (a : list A) (b : list B) : combine a (map g b) = map (fun p => (fst p, g (snd p))) (combine a b).
+Proof. revert b. induction a as [|x a IH]; intros b; [reflexivity|]. destruct b as [|y b]; [reflexivity|]. cbn [map combine fst snd]. rewrite IH. reflexivity. Qed.
+Lemma filter_map_comm {A B} (h : A -> B) (f : B -> bool) l : filter f (map h l) = map h (filter (fun x => f (h x)) l).
+Proof. induction l as [|x l IH]; [reflexivity|]. cbn [map filter]. destruct (f (h x)); cbn [map]; rewrite IH; reflexivity. Qed.
+
+Lemma cmax_negl v ev : ev <> [] -> cmax_of Rops v (negl Rops ev) = cmin_of Rops v ev.
+Proof.
+  intros H. unfold cmax_of, cmin_of. rewrite maxl1_negl by exact H. rewrite negl_is_opp, combine_map_snd, filter_map_comm, map_map.
+  f_equal. cbn [fst]. rewrite map_ext with (g := fst) by reflexivity. f_equal. apply filter_ext. intros [p e]. cbn [fst snd ltb mul Rops].
+  replace (half_ Rops * - minl1 Rops ev) with (- (half_ Rops * minl1 Rops ev)) by ring. apply Rltb_neg.
+Qed.
+Lemma cmin_negl v ev : ev <> [] -> cmin_of Rops v (negl Rops ev) = cmax_of Rops v ev.
+Proof.
+  intros H. unfold cmax_of, cmin_of. rewrite minl1_negl by exact H. rewrite negl_is_opp, combine_map_snd, filter_map_comm, map_map.
+  f_equal. cbn [fst]. rewrite map_ext with (g := fst) by reflexivity. f_equal. apply filter_ext. intros [p e]. cbn [fst snd ltb mul Rops].
+  replace (half_ Rops * - maxl1 Rops ev) with (- (half_ Rops * maxl1 Rops ev)) by ring. apply Rltb_neg.
+Qed.
+
+Definition aligned (v : list V3) (ev : list R) (k : nat) : Prop := coord k (cmin_of Rops v ev) <= coord k (cmax_of Rops v ev).
+Lemma aligned_after_sign v ev k : ev <> [] ->
+  aligned v (if ltb Rops (coord k (cmax_of Rops v ev)) (coord k (cmin_of Rops v ev)) then negl Rops ev else ev) k.
+Proof.
+  intros H. unfold aligned. cbn [ltb Rops]. destruct (Rltb _ _) eqn:E.
+  - apply Rltb_true in E. rewrite cmax_negl, cmin_negl by exact H. lra.
+  - apply Rltb_false in E. lra.
+Qed.
+
+Theorem embedding_axes_aligned v ev1 ev2 ev3 e : ev1 <> [] -> ev2 <> [] -> ev3 <> [] ->
+  spectral_embedding Rops v ev1 ev2 ev3 = Ok e ->
+  let '(a, b, c) := em_ev e in aligned v a 1 /\ aligned v b 2 /\ aligned v c 0.
+Proof.
+  intros H1 H2 H3. unfold spectral_embedding.
+  destruct (ltb Rops _ _ || ltb Rops _ _); [discriminate|].
+  match goal with |- context [if ?b then (ev3, ev2) else _] => destruct b end;
+  intros H; inversion H; subst; cbn [em_ev]; clear H;
+  (split; [|split]); first [exact (aligned_after_sign v _ _ H1) | exact (aligned_after_sign v _ _ H2) | exact (aligned_after_sign v _ _ H3)].
 Qed.
